@@ -129,7 +129,9 @@ func Bounds(c *core.Ctx, pkgs []*packages.Package) ([]*Site, error) {
 	for _, rs := range raw {
 		p := byFile[rs.file]
 		if p == nil {
-			return nil, fmt.Errorf("check_bce reported %s which is not a file of the loaded packages", rs.file)
+			// bounds checks of generic library code instantiated in a scope package are reported at the
+			// library's own file (e.g. slices/zsortanyfunc.go): dependency code, outside the obligations
+			continue
 		}
 		f := fileAST[rs.file]
 		s := &Site{Pkg: p, File: f, Kind: rs.kind, Pos: token.Position{Filename: rs.file, Line: rs.line, Column: rs.col}}
